@@ -57,6 +57,7 @@ func genBase(combs []string) func(t *rapid.T) fk.Case {
 			c.SrcGapMs = rapid.SampledFrom([]int{0, 0, 300, 1000, 3000}).Draw(t, "srcgap")
 			c.PaceMs = rapid.SampledFrom([]int{0, 0, 500, 2500}).Draw(t, "pace")
 			c.EndGapMs = rapid.SampledFrom([]int{0, 0, 5000}).Draw(t, "endgap")
+			c.CloseMs = rapid.SampledFrom([]int{0, 0, 2}).Draw(t, "closems")
 			c.Par = rapid.SampledFrom([]int{1, 2, 3}).Draw(t, "par")
 			c.Buf = rapid.SampledFrom([]int{0, 1, 2, 5}).Draw(t, "buf")
 			c.Latency = rapid.SampledFrom([]string{"", "desc", "head"}).Draw(t, "lat")
@@ -235,7 +236,7 @@ func runBoundaries(res *fk.Result, ref [][]int) error {
 	return nil
 }
 
-var statefulCombs = map[string]bool{"Chunk": true, "WithPeek": true, "While": true, "Flatten": true, "Runs": true, "MapStream": true,
+var statefulCombs = map[string]bool{"RunsSkip": true, "Chunk": true, "WithPeek": true, "While": true, "Flatten": true, "Runs": true, "MapStream": true,
 	"Batch": true, "Join": true, "FlattenSlices": true, "Compact": true, "CompactFunc": true, "PipeChain": true}
 
 func nontrivial(c fk.Case) bool {
